@@ -97,7 +97,7 @@ def interp_integral(b, xi, kernel):
                         den *= b.t[j] - b.t[k]
                 return kernel(u) * num / den
 
-            w[j] += quad(f, lo, hi, epsabs=0, epsrel=1e-11, limit=100)[0]
+            w[j] += quad(lambda t, f=f: f(math.exp(t)) * math.exp(t), math.log(lo), math.log(hi), epsabs=0, epsrel=1e-11, limit=200)[0]
     return w
 
 
